@@ -39,6 +39,8 @@ const (
 type Segment struct {
 	Type, Flags               uint32
 	Off, Vaddr, Filesz, Memsz uint64
+	// PaddrDelta is added to Vaddr to form p_paddr (0: physical == virtual).
+	PaddrDelta uint64
 }
 
 // Section is a section header (the null section and .shstrtab are added by the
@@ -210,7 +212,7 @@ func (m *Model) Bytes() ([]byte, Layout) {
 			bo.PutUint32(e[4:], s.Flags)
 			bo.PutUint64(e[8:], s.Off)
 			bo.PutUint64(e[16:], s.Vaddr)
-			bo.PutUint64(e[24:], s.Vaddr)
+			bo.PutUint64(e[24:], s.Vaddr+s.PaddrDelta)
 			bo.PutUint64(e[32:], s.Filesz)
 			bo.PutUint64(e[40:], s.Memsz)
 			bo.PutUint64(e[48:], 1)
@@ -218,7 +220,7 @@ func (m *Model) Bytes() ([]byte, Layout) {
 			bo.PutUint32(e[0:], s.Type)
 			bo.PutUint32(e[4:], uint32(s.Off))
 			bo.PutUint32(e[8:], uint32(s.Vaddr))
-			bo.PutUint32(e[12:], uint32(s.Vaddr))
+			bo.PutUint32(e[12:], uint32(s.Vaddr+s.PaddrDelta))
 			bo.PutUint32(e[16:], uint32(s.Filesz))
 			bo.PutUint32(e[20:], uint32(s.Memsz))
 			bo.PutUint32(e[24:], s.Flags)
